@@ -114,6 +114,7 @@ LOC_MUT = [V('locale', r'::UnicodeExtensionList::(is_empty|keyword|attributes|se
            V('locale', r'::ExtensionsMap::is_empty$'),
            V('locale', r'::(unicode::lemma_\w+|vspec::lemma_(kv_wf_\w+|fmc_utype|insert_multiset|map_values_multiset|texts_\w+|strict_sorted_\w+|weak_sorted_\w+|sorted_\w+|tiny_text\w*|lower_props))$')]
 LID_DISPLAY = [V('langid', r'::(Language|Script|Region|Variant|LanguageIdentifier)::fmt$'), V('langid', r'::lemma_dash_join_push$'),
+               V('langid', r'::vspec::lemma_(wsum_\w+|jl_wsum|split_len|dash_join_len|strict_sorted_no_dup|lid_ser_not_longer)$'),
                V('langid', r'::canonicalize$'), V('langid', r'::LanguageIdentifier::lemma_wf_view$')]
 LOC_DISPLAY = [V('locale', r'::(PrivateExtensionList|UnicodeExtensionList|TransformExtensionList|ExtensionsMap|Locale)::fmt$'),
                V('locale', r'::canonicalize$'), V('locale', r'::vspec::(lemma_kv_ser_push|lemma_sorted_keys_unique|kv_ser)$')]
